@@ -275,7 +275,10 @@ def allPaths {π : Type} (paths : δ → List π) (t : Dests δ) : List (Pfx × 
 
 /-! ## a concrete destination for the correspondence run -/
 
-/-- what the harness can see of a `*Path` -/
+/-- what the harness can see of a `*Path`.  `src` is the IDENTITY of the source: the harness numbers
+    its `PeerInfo`s so that two numbers are equal iff the PeerInfos agree in every field
+    `PeerInfo.Equal` compares (AS, router id, local id, address INCLUDING the IPv6 zone); `addr` numbers
+    the address strings (`Address.String()`), which is what the route-server view filter compares. -/
 structure TPath where
   src  : Nat        -- source peer (index of the PeerInfo)
   rid  : Nat        -- remote (received) path id
@@ -283,6 +286,8 @@ structure TPath where
   tag  : Nat        -- identity of the announcement
   lid  : Nat        -- local path id
   rej  : Bool       -- rejected flag (Adj-RIB-In)
+  addr : Nat := 0   -- class of the source's address string (route-server view filter)
+  stale : Bool := false -- `originInfo.stale` (Adj-RIB-In, graceful restart)
 deriving DecidableEq, Repr
 
 structure TDest where
@@ -386,6 +391,54 @@ def adjAccDelta (d : TDest) : TOp → Int
     | none => if p.rej then 0 else 1
     | some o => if o.rej && !p.rej then 1 else if !o.rej && p.rej then -1 else 0
 
+/-! ### partial operations of a multi-family Adj-RIB-In (each works on ONE table of the AdjRib) -/
+
+/-- `walkActive` with an in-place rewrite of every destination (`AdjRib.StaleAll`) -/
+def mapDests (f : δ → δ) (t : Dests δ) : Dests δ :=
+  t.map (fun kc => (kc.1, kc.2.map (fun e => (e.1, f e.2))))
+
+/-- `AdjRib.StaleAll` on one family: every stored path is replaced by a clone marked stale -/
+def adjStaleAll (t : Dests TDest) : Dests TDest :=
+  mapDests (fun d => { d with paths := d.paths.map (fun x => { x with stale := true }) }) t
+
+/-- the withdrawals `AdjRib.DropStale` builds from its walk -/
+def staleWds (t : Dests TDest) : List (Pfx × TOp) :=
+  (entries t).flatMap (fun e => (e.2.paths.filter (·.stale)).map (fun x => (e.1, TOp.wd x.src x.rid true)))
+
+/-- `AdjRib.DropStale` on one family: `adj.Update(pathList)` with those withdrawals; the second
+    component is the change of `accepted[rf]` -/
+def adjDropStale (h : Pfx → Nat) (t : Dests TDest) : Dests TDest × Int :=
+  (staleWds t).foldl
+    (fun acc o =>
+      let old := (get h acc.1 o.1).getD (adjOps.fresh o.1)
+      (update adjOps h acc.1 o.1 o.2, acc.2 + adjAccDelta old o.2))
+    (t, 0)
+
+/-- a multi-family Adj-RIB-In (`AdjRib.table` + `AdjRib.accepted`): per family the table and the
+    accepted counter -/
+abbrev AdjRibM := List (Nat × (Dests TDest × Int))
+
+def AdjRibM.fam (a : AdjRibM) (f : Nat) : Option (Dests TDest × Int) :=
+  match a with
+  | [] => none
+  | x :: r => if x.1 = f then some x.2 else AdjRibM.fam r f
+
+/-- `for _, rf := range rfList { … adj.table[rf] … adj.accepted[rf] … }`: an operation restricted to
+    the families named -/
+def adjOn (fams : List Nat) (g : Dests TDest × Int → Dests TDest × Int) (a : AdjRibM) : AdjRibM :=
+  a.map (fun x => if fams.contains x.1 then (x.1, g x.2) else x)
+
+/-- `AdjRib.Drop(rfList)`: new table and counter 0 for the families named, only -/
+def adjRibDrop (fams : List Nat) (a : AdjRibM) : AdjRibM := adjOn fams (fun _ => ([], 0)) a
+
+/-- `AdjRib.StaleAll(rfList)` -/
+def adjRibStaleAll (fams : List Nat) (a : AdjRibM) : AdjRibM :=
+  adjOn fams (fun x => (adjStaleAll x.1, x.2)) a
+
+/-- `AdjRib.DropStale(rfList)` -/
+def adjRibDropStale (h : Pfx → Nat) (fams : List Nat) (a : AdjRibM) : AdjRibM :=
+  adjOn fams (fun x => ((adjDropStale h x.1).1, x.2 + (adjDropStale h x.1).2)) a
+
 /-- options of `destination.Select` that the harness uses -/
 structure SelOpt where
   view : Nat      -- 0 = global; otherwise the source whose own paths are filtered (`rsFilter`)
@@ -393,9 +446,10 @@ structure SelOpt where
   best : Bool
 deriving Repr
 
-/-- `destination.GetKnownPathList(id, as)` -/
+/-- `destination.GetKnownPathList(id, as)`: `rsFilter` drops the paths whose source ADDRESS (as a
+    string) is the view's id — every source with that address, whatever its AS or router id -/
 def viewPaths (view : Nat) (d : TDest) : List TPath :=
-  if view = 0 then d.paths else d.paths.filter (fun x => x.src != view)
+  if view = 0 then d.paths else d.paths.filter (fun x => x.addr != view)
 
 /-- `destination.Select` (the result is a snapshot-like destination: map size 0) -/
 def tsel (o : SelOpt) (d : TDest) : Option TDest :=
